@@ -8,18 +8,32 @@ known part) — the SAME executable definition the driver evaluates on the real
 functions' outputs for the search half of this property (`judge.c12`,
 harness/c12.go).
 
-What is proved here is the part of the property that is the call FRAMEWORK's doing,
-for every stdlib spec (parameter tables regenerated from the built code on every
-check) and for ARBITRARY callbacks: whenever weakening arguments makes `Call`
-short-circuit — an argument became unknown and its parameter does not declare
-`AllowUnknown` — the unknown it returns admits the concrete result, under the
-obligation that the function's `Type` callback is monotone (unconditional for the
-statically typed functions) and, where a `RefineResult` is declared, that the
-refinement it adds is true of the concrete result.  For functions that DO accept
-unknown arguments the soundness is the function's own code: proved where the Impl is
-modelled (C13/C14: short-circuit branches inside the callbacks), searched on the real
-code otherwise — every exported function x weakenings of arguments and nested
-members to typed unknowns true of the replaced part.
+What is proved here:
+
+(1) the part of the property that is the call FRAMEWORK's doing, for every stdlib spec (parameter tables
+regenerated from the built code on every check) and for ARBITRARY callbacks: whenever weakening arguments
+makes `Call` short-circuit — an argument became unknown and its parameter does not declare `AllowUnknown` —
+the unknown it returns admits the concrete result, under the obligation that the function's `Type` callback
+is monotone (unconditional for the statically typed functions) and, where a `RefineResult` is declared, that
+the refinement it adds is true of the concrete result; no failure before `Impl`; wholly known in, wholly
+known out through `Call`;
+
+(2) (slice d12b) the COMPOSITION theorem `impl_soundness_lifts_to_call`: soundness of an `Impl` callback on a
+pair of argument lists (`ImplSoundAt`) gives "the weakened `Call` succeeds and its result admits the concrete
+result", for all specs; and the obligation discharged, function by function, for the modelled callbacks of
+Stdlib/Collection.lean, Sequence.lean and d12bStrlen.lean — the SAME definitions the C12/C13 correspondence
+diffs against the real functions on weakened arguments: `sound_length`, `sound_compact`, `sound_distinct`,
+`sound_coalescelist`, `sound_coalesce`, `sound_keys`, `sound_values`, `sound_reverse`, `sound_element`,
+`sound_sort` (length bounds), `sound_strlen` (prefix-derived lower bound), `sound_zipmap`,
+`sound_contains_partial`, `sound_lookup_map_partial`, `sound_concat_partial`, and the full-strength statement
+that is FALSE of the code as `SoundSetProduct` with `sound_setproduct_counterexample` (the recorded finding).
+Side conditions are explicit and decidable on instances; each theorem has a joint witness at the end of the
+file.  External libraries enter as parameters with named laws (`EnvConvertSound`, the segmentation law of
+`sound_strlen`), probed on the real library by the harness.
+
+For every other function that looks inside partly-unknown arguments itself the soundness is searched on the
+real code — every exported function x weakenings of arguments and nested members to typed unknowns true of
+the replaced part.
 -/
 import CtyModel.Props.C11
 import CtyModel.Lemmas.CoversWeaken
@@ -864,6 +878,65 @@ theorem sound_concat_partial (E : Stdlib.Env) (os ws : List Value) (r : Value)
       exact D12b.pass2_all_known _ ws hri (by simp) (fun p hp' => by rw [List.eq_of_mem_replicate hp'])
     exact D12b.concat_implSound E os ws (hpair hp) hko hkw hns hsame
 
+/-- **Through the declared `refineNonNull`, to `Function.Call` itself.**  For a function declaring
+`RefineResult: refineNonNull` (every `sound_<fn>` above but `lookup` / `element`, which declare none, and
+`strlen`, which adds a lower bound of its own): under the hypotheses of `impl_soundness_lifts_to_call`, the
+concrete `Call` returns `r` and EVERY value the weakened `Call` returns admits it — provided what the weakened
+call yields before the refinement is unmarked at the top and is not a known value of the placeholder type
+(`hu`: true of a mark-free call of every modelled callback), and `r` is known, non-null, mark-free, of a proper
+type with the payload kind the type prescribes (`fitsTop`: C06). -/
+theorem impl_soundness_lifts_to_refined_call (spec : Spec) (tf : TypeFn) (impl : ImplFn) (os ws : List Value) (r : Value)
+    (hrf : spec.refine = some Stdlib.refineNN)
+    (hm : Passes spec ws → TypeMonoAt tf os ws) (hTw : ∀ t, tf ws = .ok t → Ty.wf t = true)
+    (hko : ∀ a ∈ os, a.isKnown = true)
+    (hmo : ∀ a ∈ os, a.containsMarked = false) (hmw : ∀ a ∈ ws, a.containsMarked = false)
+    (hcov : coversAll ws os = true) (hty : TyKept ws os) (hrwf : Ty.wf r.ty = true) (hrefl : Covers r r = true)
+    (hi : Passes spec ws → ReachesImpl spec ws → ImplSoundAt tf impl os ws)
+    (hu : ∀ u, (callUnrefined spec tf impl ws).1 = .ok u → u.v.isMarked = false ∧ (u.ty.isDyn = false ∨ u.isKnown = false))
+    (hcl : r.containsMarked = false) (hfit : fitsTop r.ty r.v = true) (hd : r.ty.isDyn = false)
+    (hr : (callUnrefined spec tf impl os).1 = .ok r) :
+    (call spec tf impl os).1 = .ok r ∧ (∃ u, (callUnrefined spec tf impl ws).1 = .ok u) ∧
+      ∀ w, (call spec tf impl ws).1 = .ok w → Covers w r = true := by
+  obtain ⟨u, hu1, hu2⟩ := impl_soundness_lifts_to_call spec tf impl os ws r hm hTw hko hmo hmw hcov hty hrwf hrefl hi hr
+  obtain ⟨h1, h2⟩ := call_refined_covers spec tf impl os ws r u hrf hr hu1 (hu u hu1).1 (hu u hu1).2 hcl hfit hd hu2
+  exact ⟨h1, ⟨u, hu1⟩, h2⟩
+
+/-- **`length` through `Function.Call` itself** (declared refinement included): every hypothesis of
+`impl_soundness_lifts_to_refined_call` discharged.  The concrete call returns the length `r`; the weakened call
+gets to a value before the refinement, and whatever `Call` then returns admits `r`. -/
+theorem sound_length_call (o w r : Value) (hk : o.whollyKnown = true) (hfo : o.wfc = true) (hfw : w.wfc = true)
+    (hmo : o.containsMarked = false) (hmw : w.containsMarked = false)
+    (hwdyn : w.ty = .dyn → w.isKnown = false) (hcount : SetCountOK w.unmark o.unmark = true)
+    (hty : w.ty = o.ty ∨ w.ty.isDyn = true) (hc : CoversX w o = true)
+    (hr : (callUnrefined Stdlib.lengthSpec Stdlib.lengthType Stdlib.lengthImpl [o]).1 = .ok r)
+    (hrk : r.v.isLeaf = true ∧ r.containsMarked = false ∧ fitsTop r.ty r.v = true ∧ Covers r r = true) :
+    (call Stdlib.lengthSpec Stdlib.lengthType Stdlib.lengthImpl [o]).1 = .ok r ∧
+    (∃ u, (callUnrefined Stdlib.lengthSpec Stdlib.lengthType Stdlib.lengthImpl [w]).1 = .ok u) ∧
+    ∀ x, (call Stdlib.lengthSpec Stdlib.lengthType Stdlib.lengthImpl [w]).1 = .ok x → Covers x r = true := by
+  have hrt : r = Value.unknown .dyn ∨ r.ty = .number := by
+    rcases known_args_impl_value _ _ _ [o] r (by simpa using hk) (by simpa using hmo) hr with h | ⟨rt, _, h⟩
+    · exact Or.inl h
+    · simp only [Stdlib.lengthImpl] at h
+      exact Or.inr (D12b.length_ty h)
+  have hrn : r.ty = .number := by
+    rcases hrt with h | h
+    · rw [h] at hrk; exact absurd hrk.2.2.1 (by decide)
+    · exact h
+  refine impl_soundness_lifts_to_refined_call _ _ _ [o] [w] r rfl (fun _ => D12b.lengthType_mono hty)
+    (fun t ht => by rw [D12b.lengthType_number ht]; rfl)
+    (by simpa using C12L.whollyKnown_isKnown hk) (by simpa using hmo) (by simpa using hmw)
+    (one_arg_cover hc) ⟨hty, trivial⟩ (by rw [hrn]; rfl) hrk.2.2.2
+    (fun _ _ => D12b.length_implSound o w hk hfo hfw hwdyn hcount hc) ?_ hrk.2.1 hrk.2.2.1 (by rw [hrn]; rfl) hr
+  intro u hu
+  rcases D12b.callUnrefined_result_cases _ _ _ [w] u (by simpa using hmw) hu with h | ⟨rt, _, h⟩ | ⟨rt, hrt', h⟩
+  · subst h; exact ⟨rfl, Or.inr rfl⟩
+  · subst h; exact ⟨rfl, Or.inr rfl⟩
+  · simp only [Stdlib.lengthImpl] at h
+    have hnm : w.isMarked = false := D12b.clean_not_marked hmw
+    have hl : Value.lengthU w = .ok u := by
+      simpa [Value.length, Value.unMarks, hnm] using h
+    exact ⟨D12b.lengthU_unmarked hl, Or.inl (by rw [D12b.lengthU_ty hl]; rfl)⟩
+
 /-! ### the hypotheses are satisfiable -/
 
 example : TypeMonoW (C11.staticType (.list .string)) := static_typeMonoW _
@@ -1117,6 +1190,14 @@ example : ∃ r', (callUnrefined Stdlib.concatSpec (Stdlib.concatType {}) (Stdli
         .ok (.tuple [.number, .string, .bool]) := rfl
       rw [e1] at h; cases h; rfl)
     (by decide) ⟨Or.inl rfl, Or.inl rfl, trivial⟩ (by decide) (by decide) (by rfl)
+
+
+/-- `length` through `Call` with its `refineNonNull`: a set holding an unknown member -/
+example : (call Stdlib.lengthSpec Stdlib.lengthType Stdlib.lengthImpl [exS]).1 = .ok (Value.intVal 2) ∧
+    (∃ u, (callUnrefined Stdlib.lengthSpec Stdlib.lengthType Stdlib.lengthImpl [exSw]).1 = .ok u) ∧
+    ∀ x, (call Stdlib.lengthSpec Stdlib.lengthType Stdlib.lengthImpl [exSw]).1 = .ok x → Covers x (Value.intVal 2) = true :=
+  sound_length_call exS exSw (Value.intVal 2) (by decide) (by decide) (by decide) (by decide) (by decide)
+    (by intro h; cases h) (by decide) (Or.inl rfl) (by decide) (by rfl) ⟨by decide, by decide, by decide, by decide⟩
 
 end C12
 end CtyModel
